@@ -41,6 +41,20 @@ def build(rng, casedir, index, nrec=None, untagged=True, force_all_known=False, 
             n = rng.choice(list(tagsd))
             tagsd[n] = (-1, -1)
     w.tags = tagsd
+    if rng.random() < 0.12:
+        # integer tags in valid but not shortest form: LN / SO / SR of some segments, or the SR of every
+        # segment of a contig ('+0', '00')
+        if rng.random() < 0.5:
+            g.noncanonical_ints = True
+        g.sr_style_of_contig = {c: rng.choice(["+{}", "0{}", "00{}"]) for c in set(g.contigs) if rng.random() < 0.6}
+        w.noncanonical = True
+    if rng.random() < 0.12:
+        # segments that are not part of the ordered graph (an unplaced contig, a chromosome order_gfa
+        # skipped): S lines without BO / NO anywhere in the file, never touched by an alignment
+        for k in range(rng.randint(1, 3)):
+            ln = rng.randint(1, 30)
+            g.extra_lines = list(g.extra_lines) + ["\t".join(["S", f"decoy_{k}", "*" , f"LN:i:{ln}", f"SN:Z:chrUn_decoy{k}", "SO:i:0", "SR:i:0"])]
+        w.decoys = True
     w.gfa = os.path.join(casedir, vary_name(rng, "g.gfa") + (".gz" if rng.random() < 0.2 else ""))
     g.write(w.gfa, rng=rng, shuffle=rng.random() < 0.5, with_seq=rng.random() < 0.5, bo_no=tagsd)
     succ = g.successors()
